@@ -30,7 +30,8 @@ META = {
 
 def shape(ev, clause):
     if ev['ev'] != 'run':
-        return 'split|maxh=%d' % ev.get('max_handles', -1)
+        fm = ev.get('fmap', [])
+        return 'split|%s' % ('colliding_tag_values' if len(set(fm)) < len(fm) else 'distinct_tag_values')
     if clause == 'Inv_C19_Content' and ev.get('stale'):
         for f in ev['final']:
             if f['p'] in ev['stale'] and 0 in f['recs'] and len(f['recs']) > 1:
@@ -97,6 +98,7 @@ def run(tier):
     c.mc_negative('HandleLimiter', 'MC_HandleLimiter_impl_closeall_leak_q.cfg', expect_inv='Inv_C19_NoLeak', workers=4)
     c.mc_negative('HandleLimiter', 'MC_HandleLimiter_impl_partial_q.cfg', expect_inv='Inv_C19_Raise', workers=4)
     c.mc_negative('HandleLimiter', 'MC_HandleLimiter_mut_seen_early_q.cfg', expect_inv='Inv_C19_Content', workers=4)
+    c.mc_negative('SplitPasses', 'MC_SplitPasses_rawkey_q.cfg', expect_inv='Inv_C19_PassesComplete', workers=4)
     c.mc_negative('SplitPasses', 'MC_SplitPasses_noskip_q.cfg', expect_inv='Inv_C19_OpenOnce', workers=4)
 
     scns = gen_scenarios(tier, c)
@@ -148,7 +150,8 @@ def run(tier):
         'handlelimiter.time is a strictly increasing counter in replayed TLC behaviours (real clock in half of the random runs)',
         'in-process bamSplitByTag runs use a serial stand-in for multiprocessing.Pool (only builds .bai files); one run per 40 '
         'uses the unmodified command line in a child process',
-        'records are distinct integers written as one line each; FastqHandle is driven with stand-in records exposing .tags and str()',
+        'records are distinct integers written as one line each; FastqHandle is driven with stand-in records exposing .tags and str() '
+        '(bi = integer barcode index starting at 0 or a string, MX = "mx" or the integer 0)',
     ]
     return c.finish(rule='every complete behaviour of GEN_HandleLimiter_%s.cfg%s replayed into HandleLimiter (4/5) and '
                          'FastqHandle(single_cell) (1/5), + random runs over 1..200 files, + bamSplitByTag command-line runs; '
